@@ -325,6 +325,9 @@ func (e *SpecEnv) eval(x *Expr) SVal {
 		a, b := e.eval(x.Args[0]), e.eval(x.Args[1])
 		if e.sortOfVal(a) == "String" {
 			c.useStrings = true
+			if a.Typ == nil {
+				return ghostVal("(str.++ "+a.T+" "+b.T+")", "String")
+			}
 			return goVal("(str.++ "+a.T+" "+b.T+")", a.Typ)
 		}
 		return goVal("(+ "+a.T+" "+b.T+")", tInt)
@@ -732,6 +735,13 @@ func (e *SpecEnv) call(x *Expr) SVal {
 		case "len":
 			a := e.eval(args[0])
 			if a.Typ == nil {
+				switch a.Sort {
+				case "String":
+					c.useStrings = true
+					return goVal("(str.len "+a.T+")", tInt)
+				case "BV":
+					return goVal("(bv.len "+a.T+")", tInt)
+				}
 				e.fail("len of ghost value")
 			}
 			switch u := a.Typ.Underlying().(type) {
@@ -787,13 +797,21 @@ func (e *SpecEnv) call(x *Expr) SVal {
 				witness = args[3]
 				args = args[:3]
 			}
+			ghostSort := false
 			if len(args) == 3 {
-				tv := e.eval(args[1])
-				if tv.IsType != nil {
-					typ = tv.IsType
-					srt = c.sortOf(typ)
+				if args[1].Op == "id" && (args[1].Name == "BV" || args[1].Name == "Int" || args[1].Name == "Bool" || args[1].Name == "String") {
+					srt, typ, ghostSort = args[1].Name, nil, true
+					if srt == "String" {
+						c.useStrings = true
+					}
 				} else {
-					e.fail("quantifier type")
+					tv := e.eval(args[1])
+					if tv.IsType != nil {
+						typ = tv.IsType
+						srt = c.sortOf(typ)
+					} else {
+						e.fail("quantifier type")
+					}
 				}
 				body = args[2]
 			}
@@ -801,15 +819,15 @@ func (e *SpecEnv) call(x *Expr) SVal {
 				// proving an existential with a named witness: prove the instance
 				w := e.eval(witness)
 				if w.T != "" {
-					ne := e.bind(name, specVar{sv: tv(w.T), typ: typ})
+					ne := e.bind(name, specVar{sv: tv(w.T), typ: typ, sort: srt})
 					return goVal(ne.evalBool(body), tBool)
 				}
 			}
 			bn := c.freshName("q_" + name)
-			ne := e.bind(name, specVar{sv: tv(qsym(bn)), typ: typ})
+			ne := e.bind(name, specVar{sv: tv(qsym(bn)), typ: typ, sort: srt})
 			b := ne.evalBool(body)
 			c.quant = true
-			if typ != tInt {
+			if typ != tInt && !ghostSort {
 				// typed bound variable ranges over well-formed values of its type
 				rng := c.wf(typ, qsym(bn), e.st.wm())
 				if fn.Name == "forall" {
@@ -880,6 +898,17 @@ func (e *SpecEnv) call(x *Expr) SVal {
 				e.fail("dyn supports pointer types only")
 			}
 			return goVal(ite(fmt.Sprintf("(= (i.tid %s) %d)", a.T, c.typeID(t.IsType)), "(i.ref "+a.T+")", "0"), t.IsType)
+		case "contains", "hasprefix", "hassuffix":
+			a, b := e.eval(args[0]), e.eval(args[1])
+			c.useStrings = true
+			op := map[string]string{"contains": "str.contains", "hasprefix": "str.prefixof", "hassuffix": "str.suffixof"}[fn.Name]
+			if fn.Name == "contains" {
+				return goVal("("+op+" "+a.T+" "+b.T+")", tBool)
+			}
+			return goVal("("+op+" "+b.T+" "+a.T+")", tBool)
+		case "bvlen":
+			a := e.eval(args[0])
+			return goVal("(bv.len "+a.T+")", tInt)
 		case "store":
 			a, i, v := e.eval(args[0]), e.eval(args[1]), e.eval(args[2])
 			r := a
